@@ -193,6 +193,12 @@ var c02FeatureLiterals = []string{
 	`<bind xmlns='urn:ietf:params:xml:ns:xmpp-bind'/>`, `<sm xmlns='urn:xmpp:sm:3'/>`,
 	`<session xmlns='urn:ietf:params:xml:ns:xmpp-session'><optional/></session>`,
 	`<c xmlns='http://jabber.org/protocol/caps' hash='sha-1' node='n' ver='v'/>`,
+	// features named like the known ones, in other namespaces (an older protocol version, somebody else's extension)
+	`<sm xmlns='urn:xmpp:sm:2'/>`, `<bind xmlns='urn:x:unknown'/>`, `<starttls xmlns='urn:x:unknown'><required/></starttls>`,
+	`<mechanisms xmlns='urn:x:unknown'><mechanism>X-FOO</mechanism></mechanisms>`, `<session xmlns='urn:x:unknown'/>`,
+	`<c xmlns='urn:x:unknown' hash='x'/>`, `<push xmlns='p1:push'/>`, `<rebind xmlns='p1:rebind'/>`, `<ack xmlns='p1:ack'/>`,
+	`<compression xmlns='http://jabber.org/features/compress'><method>zlib</method></compression>`,
+	`<register xmlns='http://jabber.org/features/iq-register'/>`, `<csi xmlns='urn:xmpp:csi:0'/>`,
 }
 
 var c02StanzaKinds = []string{"message", "presence", "iq"}
